@@ -219,10 +219,30 @@ func checkC07(c c07Case, ctx *vCtx) *vFailure {
 	// R1: report totals = sum over days of the register's daily totals, in the default presentation and in one other
 	// (old reporter, totals only, left-aligned template: the totals are the same figures)
 	r1Alt := [][]string{{"reg", "--use-old-reg-reporter"}, {"reg", "--use-old-reg-reporter", "--totals-only"}, {"reg", "--totals-only"}, {"reg", "--internal-template-name", "left-aligned"},
-		{"reg", "--shorten"}, {"reg", "--shorten", "--totals-only"}, {"reg", "--use-old-reg-reporter", "--shorten"}}[(len(regDays)+len(totals))%7]
+		{"reg", "--shorten"}, {"reg", "--shorten", "--totals-only"}, {"reg", "--use-old-reg-reporter", "--shorten"}, {"reg", "@coloured"}}[(len(regDays)+len(totals))%8]
 	for variant := 0; variant < 2; variant++ {
 		days := regDays
-		if variant == 1 {
+		if variant == 1 && r1Alt[len(r1Alt)-1] == "@coloured" {
+			// with colours (the escape codes removed): the figures are the figures of the plain output
+			args := append(append([]string{}, period...), fileArgs("reg")...)
+			env := map[string]string{}
+			if c.Depth > 0 {
+				switch c.DepthVia {
+				case "env":
+					env["HR_MAXDEPTH"] = fmt.Sprint(c.Depth)
+				case "config":
+					args = append([]string{"--config", vWriteFile("c07.conf", fmt.Sprintf("[Resolver]\nMaxDepth=%d\n", c.Depth))}, args...)
+				default:
+					args = append([]string{"--maxdepth", fmt.Sprint(c.Depth)}, args...)
+				}
+			}
+			r := vRunApp(vInvocation{Args: args, Env: env})
+			ctx.Run(1)
+			if r.Failed {
+				vViolate("C07: coloured reg failed on valid input: %s", r)
+			}
+			days = vReadRegister(vAnsiRe.ReplaceAllString(r.Stdout, ""))
+		} else if variant == 1 {
 			out := run(r1Alt...).Stdout
 			if r1Alt[1] == "--internal-template-name" {
 				days = vReadRegisterLA(out)
